@@ -3,6 +3,7 @@
 package internal
 
 import (
+	"context"
 	"fmt"
 	"runtime"
 	"strings"
@@ -37,7 +38,7 @@ func TestVerifWaitFullQueue(t *testing.T) {
 	VerifYield.Store(nil)
 	old := runtime.GOMAXPROCS(1) // the caller reaches Wait before any helper goroutine it may have started runs
 	defer runtime.GOMAXPROCS(old)
-	trials := vscale(3, 12)
+	trials := vscale(4, 12)
 	bad := 0
 	for c := 0; c < trials; c++ {
 		vsetNow(1000 + int64(c))
@@ -56,10 +57,40 @@ func TestVerifWaitFullQueue(t *testing.T) {
 		}
 		type res struct{ removedSeen bool }
 		done := make(chan res, 1)
+		kind := c % 4
+		what := [4]string{"Delete(42)", "Set(43) of a new key", "Set(42) with another cost", "loading Get(44) of an absent key"}[kind]
+		ls := NewLoadingStore(s)
+		ls.Loader(func(ctx context.Context, key int) (Loaded[int], error) {
+			return Loaded[int]{Value: key * 3, Cost: 5}, nil
+		})
+		inPolicy := func(k int, pw int64) bool {
+			_, idx := s.index(k)
+			tk := s.shards[idx].mu.RLock()
+			e := s.shards[idx].hashmap[k]
+			s.shards[idx].mu.RUnlock(tk)
+			return e != nil && e.meta.prev != nil && e.policyWeight == pw
+		}
 		go func() {
-			s.Delete(42)
-			s.Wait()
-			done <- res{removed42.Load()}
+			ok := false
+			switch kind {
+			case 0:
+				s.Delete(42)
+				s.Wait()
+				ok = removed42.Load()
+			case 1:
+				s.Set(43, 4300, 3, 0)
+				s.Wait()
+				ok = inPolicy(43, 3)
+			case 2:
+				s.Set(42, 4201, 9, 0)
+				s.Wait()
+				ok = inPolicy(42, 9)
+			case 3:
+				_, _ = ls.Get(context.Background(), 44)
+				s.Wait()
+				ok = inPolicy(44, 5)
+			}
+			done <- res{ok}
 		}()
 		deadline := time.Now().Add(10 * time.Second)
 		for vparkedSenders() == 0 && time.Now().Before(deadline) {
@@ -79,8 +110,10 @@ func TestVerifWaitFullQueue(t *testing.T) {
 						finished = true
 						if !r.removedSeen {
 							bad++
-							tr.viol(fmt.Sprintf("C20: Delete(42); Wait() on one goroutine with a full write queue: Wait returned after %d events although the removal of key 42 had not been applied (%d senders were parked behind the queue)", applied, parked))
-							tr.viol("C02: a Delete returned while the write queue was full without its event queued: the writer did not wait, and a later Wait overtook the removal")
+							tr.viol(fmt.Sprintf("C20: %s; Wait() on one goroutine with a full write queue: Wait returned after %d events although the effect of the call had not been applied to the policy (%d senders were parked behind the queue)", what, applied, parked))
+							if kind != 3 {
+								tr.viol("C02: a " + what + " returned while the write queue was full without its event queued: the writer did not wait, and a later Wait overtook the event")
+							}
 						}
 					case <-time.After(10 * time.Second):
 						finished = true
@@ -94,7 +127,7 @@ func TestVerifWaitFullQueue(t *testing.T) {
 				}
 			case <-time.After(10 * time.Second):
 				finished = true
-				tr.viol("C20: the write queue ran dry before the Wait marker of Delete(42); Wait() arrived")
+				tr.viol("C20: the write queue ran dry before the Wait marker of " + what + "; Wait() arrived")
 			}
 		}
 		vdrainWrites(s)
